@@ -3,7 +3,7 @@
    on EVERY list of states, for any state type and any comparison: it never raises (the guard len(ca) > 1
    protects ca[-2]) and answers the same boolean. *)
 From Coq Require Import ZArith List Bool Lia ZifyBool ZifyNat.
-From CPL Require Import Model.Base Model.Engine gen.GenFuns.
+From CPL Require Import Model.Base Model.Engine gen.GenFuns_C06.
 Import ListNotations.
 Local Open Scope Z_scope.
 
